@@ -199,7 +199,7 @@ def run(chk):
         return stats.setdefault(k, dict(pos=0.0, mag=0.0, xpoint_line=0.0))
     mirrors = [("lsn_35", "usn", "sn"), ("udn", "udn_m", "dn-disconnected"), ("cdn_sym", "cdn_sym", "dn-connected")]
     if chk.tier == "thorough":
-        mirrors += [("udn_sz", "udn_m_sz", "dn-disconnected-unequal-legs"), ("udn2", "udn2_m", "dn-disconnected")]
+        mirrors += [("udn2", "udn2_m", "dn-disconnected")]
     for a, b, kind in mirrors:
         if a in G and b in G:
             n += check_mirror(chk, G[a], G[b], kind, st(f"mirror:{a}/{b}"))
